@@ -308,3 +308,39 @@ Proof.
   assert (kmk c u = Some (kp_read p, kp_recv p, kp_delid p)) as M by (unfold kmk; rewrite AL, D; reflexivity).
   apply K in M. rewrite S in M. inv M. unfold kget. rewrite AL. exact H.
 Qed.
+
+(* ------------------------------------------------------------------ *)
+(* forgetting the marks gives the loaders of Sys/TopicLoad.v (C01): same store calls, same branches, same errors,
+   same store, same lastID / delID, same want / given of both parties *)
+Definition forget_p (p : kpud) : lpud := mkLP (kp_want p) (kp_given p) (kp_deleted p).
+Definition forget_e (e : N * kpud) : N * lpud := (fst e, forget_p (snd e)).
+Definition forget_c (c : kcache) : lcache := mkLC (k_lastid c) (k_delid c) (map forget_e (k_users c)) (k_sess c).
+Definition forget_r (r : kres) : lres :=
+  match r with KErr code n => LErr code n | KOk s c n ns => LOk s (forget_c c) n ns end.
+
+Lemma map_forget_aset k v l : map forget_e (aset k v l) = aset k (forget_p v) (map forget_e l).
+Proof.
+  induction l as [|[k0 v0] l IH]; cbn; [reflexivity|]. destruct (N.eqb k k0); cbn; [reflexivity|]. rewrite IH. reflexivity.
+Qed.
+Lemma map_forget_load rows : map forget_e (kload_users rows) = load_lusers rows.
+Proof.
+  unfold kload_users, load_lusers.
+  assert (forall acc, map forget_e (fold_left (fun acc r => aset (s_user r) (kp_of_row r) acc) rows acc) =
+                      fold_left (fun acc r => aset (s_user r) (mkLP (s_want r) (s_given r) false) acc) rows (map forget_e acc)) as G.
+  { induction rows as [|a rows IH]; intros acc; cbn; [reflexivity|]. rewrite IH, map_forget_aset. reflexivity. }
+  apply (G []).
+Qed.
+Lemma kinit_p2p_forget f s n u1 u2 : forget_r (kinit_p2p f s n u1 u2) = init_p2p f s n u1 u2.
+Proof.
+  unfold kinit_p2p, init_p2p.
+  repeat (break_match; cbn [forget_r]; try reflexivity; try discriminate);
+    unfold forget_c; cbn [k_lastid k_delid k_users k_sess];
+    try (rewrite map_forget_load; reflexivity);
+    rewrite map_forget_aset; reflexivity.
+Qed.
+Lemma kinit_sys_forget f s n : forget_r (kinit_sys f s n) = init_sys f s n.
+Proof.
+  unfold kinit_sys, kinit_grp, init_sys.
+  repeat (break_match; cbn [forget_r]; try reflexivity; try discriminate).
+  unfold forget_c; cbn [k_lastid k_delid k_users k_sess]. rewrite map_forget_load. reflexivity.
+Qed.
